@@ -9,7 +9,10 @@ ast ::= ["lit",<value>] | ["kw","name"] | ["var","$x"] | ["list",[ast..]] | ["ma
       | ["index",ast,[ast..]] | ["un","not"|"neg",ast] | ["bin",<op>,ast,ast] | ["arrow",ast,ast]
       | ["member",ast,"name"] | ["call","f",[ast..],[[ast,ast]..]] | ["method",ast,"f",[ast..],[[ast,ast]..]]
 A function name that is no builtin of the fragment becomes `ucall` / `umethod`; a `def` of a
-builtin's name is outside the model ("OOD"). -/
+builtin's name is outside the model ("OOD").  Names cross the wire as JSON strings and become
+`List Char` verbatim (`String.toList`): nothing on this path looks at the characters of a
+variable / keyword / key name.  Function names are looked up modulo trailing underscores
+(`Eval.fnKey`), so `len_(..)` is the builtin `len`. -/
 namespace Yaql.Drv.C04
 open Lean Yaql Yaql.Drv Yaql.Eval
 
@@ -28,7 +31,7 @@ def errName : Err → String
   | .stopIteration => "StopIteration"
   | .zeroDiv => "ZeroDivisionError"
 
-def fnOfName : String → Option Fn
+def fnOfName0 : String → Option Fn
   | "let" => some .let_ | "with" => some .with_ | "def" => some .def_ | "list" => some .list
   | "dict" => some .dict | "unpack" => some .unpack | "select" => some .select | "where" => some .where_
   | "selectMany" => some .selectMany | "orderBy" => some .orderBy
@@ -38,6 +41,9 @@ def fnOfName : String → Option Fn
   | "take" => some .take | "skip" => some .skip | "get" => some .get | "len" => some .len
   | "any" => some .any | "all" => some .all
   | _ => none
+
+/-- builtins are found under their name with any number of trailing underscores -/
+def fnOfName (s : String) : Option Fn := fnOfName0 (String.ofList (fnKey s.toList))
 
 def binOfName : String → Option BinOp
   | "add" => some .add | "sub" => some .sub | "mul" => some .mul | "eq" => some .eq | "ne" => some .ne
